@@ -62,6 +62,8 @@ class History:
 def run(ctx):
     ctx.ensure_ppl()
     broken = ctx.prove(["PPLV.Props.C05"])
+    if ctx.tier == "thorough":
+        broken += ctx.leanchecker(["PPLV.Props.C05"])
     drv = ctx.ensure_pplv("pplv_grid")
     h = ctx.compile_harness("c05_grid.cc")
     wd = ctx.workdir()
@@ -601,5 +603,11 @@ def run(ctx):
         "the reference operations that need a congruence form of a generator-described grid (intersection, expand, "
         "is_disjoint_from, difference) are certifying: skipped (counted under verdicts.skip) when equivB rejects the proposal",
         "affine_dimension is compared with an unverified Gaussian-elimination rank of the reference generators",
-        "difference_assign: the reference result is exact (index-2 criterion); its leastness is proved only as stated in C05.difference_*",
+        "difference_assign: the reference result is proved to contain the set difference and to lie inside the first argument "
+        "(C05.difference_sound); leastness only where the result is the difference itself (C05.difference_least_partial)",
+        "reference functions without a spec theorem (validated by the correspondence only): concat, expand (through certified "
+        "congruences), fold (join of images), affineDim; for relation symbols other than EQUAL and for bounded_affine_(pre)image "
+        "the reference is the least grid containing the documented set (line(var) added), as the library documents",
+        "a history in which a known finding corrupted the state is not judged further (counted under "
+        "verdicts.ignored_after_known_finding_in_same_history)",
     ]
